@@ -4,7 +4,7 @@ Every random choice comes from one random.Random seeded by the caller, so a run 
 replayable from (property, tier, seed). A history is a dict:
   {"id": str, "family": str, "lines": [script lines], "tags": set of str}
 """
-import random
+import random, re
 
 U64 = 2**64
 MAXD = 65534
@@ -214,6 +214,14 @@ def fam_roundtrip(rng, tier, i):
         # the usual "create, else open" start-up of an application: the create of a series that exists is refused and must leave
         # every line where it is
         s += ["close", new_line("s", p, hdr), open_line("s"), "read_all u u", "len"]
+    if i % 4 == 3:
+        # another series in the same directory whose name is this one's cache-level name: a create that asks for that level is
+        # refused and must not touch the other series
+        B = rng.choice([2, 10])
+        other = "z_None_%d" % B
+        l3 = mk_lines(rng, p, 3, shape="jitter", base=rng.choice([7, 2**40]), no_marker=True)
+        s += ["close", new_line(other, p, b"")] + push_lines(l3) + ["close", new_line("z", p, hdr, (B,)), "dump",
+              open_line(other), "read_all u u", "len", "push %d %s" % (l3[-1][0] + 9, hexb(payload(rng, p))), "close"]
     s += ["dump"]
     return {"family": "roundtrip", "lines": s, "tags": {"p%d" % p}}
 
@@ -293,7 +301,10 @@ def fam_boundary2(rng, tier, i):
           "read_all i%d u" % (tC - 1), "close", open_line("b"), "read_all i%d u" % (tB - 1), "len", "close", "dump"]
     return {"family": "boundary2", "lines": s, "tags": {"p%d" % p, "big"}}
 
-def fam_lastmeta(rng, tier, i):
+def fam_lastmeta_intact(rng, tier, i):
+    return fam_lastmeta(rng, tier, i, intact=True)
+
+def fam_lastmeta(rng, tier, i, intact=False):
     """the backwards search for the last full timestamp on open (windows of 10 000 bytes rounded up to whole lines,
     counted from the END of the data, overlapping by one section header): the header of the last section straddles the
     start of a window at every split point; the index is one entry short, two short, absent or intact; optionally the
@@ -303,7 +314,7 @@ def fam_lastmeta(rng, tier, i):
     # combinations come first, once each with the index exactly one entry short and the data intact; then everything.
     strad = [(p, d) for p in (0, 1, 2, 3, 4) for d in range(1, K(p))]
     combos = [(p, d) for p in (0, 1, 2, 3, 4) for d in range(-1, K(p) + 2)]
-    fixed = i < 2 * len(strad)
+    fixed = i < 2 * len(strad) or intact
     if fixed:
         p, d = strad[i % len(strad)]
     else:
@@ -311,7 +322,7 @@ def fam_lastmeta(rng, tier, i):
     L = p + 2
     Kp = K(p)
     W = ((max(10000, 2 * Kp * L) + L - 1) // L * L) // L            # window, in lines
-    which_window = (1 if i < len(strad) else 2) if fixed else rng.choice([1, 1, 2])
+    which_window = (1 if (i // len(strad)) % 2 == 0 else 2) if fixed else rng.choice([1, 1, 2])
     step_w = W - Kp                                                # a later window starts (W - overlap) further back
     n = (W if which_window == 1 else W + step_w) - Kp + d          # lines of the last section
     base = rng.choice([1000, 2**33 + 17, 2**50 + 3])
@@ -320,13 +331,17 @@ def fam_lastmeta(rng, tier, i):
     nA = (which_window * W + 40) if fixed else rng.choice([7, W + 40, 2 * W + 40])
     s = [new_line("m", p), "pushseq %d 1 %d %d" % (base, nA, rng.randrange(256))]
     tB = base + nA + 70000 + rng.randrange(0, 500)
+    if intact and i % 3 != 2:
+        # a clean reopen with the index in place; the full timestamp of the straddling section has FF FF words at every line start
+        tB = [0x0000FFFF12345678, 0xFFFF00001234ABCD, 0x1234FFFFFFFF5678][i % 3 if i % 3 < 2 else 0] if p <= 3 else tB
+        tB = max(tB, base + nA + 70000)
     torn = (not fixed) and rng.random() < 0.35
     s.append("pushseq %d 1 %d %d" % (tB, n + (1 if torn else 0), rng.randrange(256)))
     last = tB + n - 1
     s.append("close")
     if torn:
         s.append("fs_cut data:m %d" % rng.randrange(1, L))
-    st = 0.0 if fixed else rng.random()
+    st = (1.0 if intact else 0.0) if fixed else rng.random()
     if st < 0.5:
         s.append("fs_cut index:m 16")
     elif st < 0.6:
@@ -340,7 +355,7 @@ def fam_lastmeta(rng, tier, i):
           "push %d %s" % (last, hexb(payload(rng, p))), "push %d %s" % (last - 1, hexb(payload(rng, p))),
           "push %d %s" % (last + 1, hexb(payload(rng, p))), "push %d %s" % (last + 65000, hexb(payload(rng, p))),
           "read_all i%d u" % (last - 2), "close", open_line("m"), "len", "range", "read_all i%d u" % (last - 2), "close", "dump"]
-    return {"family": "lastmeta", "lines": s, "tags": {"p%d" % p, "big"}}
+    return {"family": "lastmeta_intact" if intact else "lastmeta", "lines": s, "tags": {"p%d" % p, "big"}}
 
 def fam_interleave(rng, tier, i):
     """reads of every kind, which leave the file cursor at different places, each followed by an append - with a small
@@ -398,7 +413,7 @@ def fam_boundary_reader(rng, tier, i, caches=()):
     s.append("pushseq %d 1 %d %d" % (tB, nB, rng.randrange(256)))
     tC = tB + nB + 65535 + rng.randrange(0, 1000)
     s.append("pushseq %d 2 %d %d" % (tC, rng.randrange(1, 10), rng.randrange(256)))
-    rn = ["read_n %d u u" % rng.choice([700, 2000, 6000]), "read_n 5 u u"]
+    rn = ["read_n %d u u" % rng.choice([700, 2000, 6000]), "read_n 5 u u", "read_all i%d u" % (base + 1), "read_all i%d i%d" % (base + 2, tC)]
     # (a call that panics costs the handle: with cache levels the resampling reads go first, without them the full read)
     s += (rn + ["read_all u u", "n_lines u u", "len"] if caches else ["read_all u u", "n_lines u u", "len"] + rn) + ["read_first_n %d u u" % (nA + 2), "close",
           open_line("v", "any", "any", caches), "read_all u u", "last_line", "close"]
@@ -541,11 +556,12 @@ def fam_reopen(rng, tier, i, marker=False):
     """appends interleaved with clean close/reopen at every position (C04 C12 C15)"""
     p = rng.choice([0, 1, 2, 3, 4, 8]) if not marker else rng.choice([0, 1, 2, 3])
     n = rng.choice([1, 2, 3, 5, 9])
-    directed = marker and i < 28
+    directed = marker and i < 56
+    torn_variant = directed and i >= 28       # the same shapes reached by a kill inside the line that was being appended
     if directed:
         # every position of an FF FF pair in the 8 bytes of the full timestamp (payload sizes 0 and 1 first), five dense lines
         # and a clean reopen after every one of them: every number of lines behind the section header meets every position
-        p, o = [(pp, oo) for pp in (0, 1, 2, 3) for oo in range(7)][i]
+        p, o = [(pp, oo) for pp in (0, 1, 2, 3) for oo in range(7)][i % 28]
         b = [rng.randrange(1, 200) for _ in range(8)]
         b[o] = b[o + 1] = 255
         if o + 1 < 7: b[7] = rng.choice([0, 0, b[7] % 128])       # keep a few of them small enough for five more lines
@@ -564,7 +580,11 @@ def fam_reopen(rng, tier, i, marker=False):
         s.append("push %d %s" % (t, hexb(pay)))
         done.append(t)
         r = 0.0 if directed else rng.random()
-        if directed:
+        if torn_variant:
+            # the next line is being appended when the process is killed: a part of it reaches the file
+            s += ["push %d %s" % (t + 1, hexb(payload(rng, p))) if t + 1 < U64 else "len", "close", "fs_cut data:o %d" % rng.randrange(1, p + 2),
+                  open_line("o", rng.choice(["any", p]), rng.choice(["any", hdr])), "read_all u u", "len"]
+        elif directed:
             s += ["close", open_line("o", rng.choice(["any", p]), rng.choice(["any", hdr])), "read_all u u", "len"]
         elif r < 0.5:
             # now and then a refused append (wrong length, timestamp newer than the last line) right before the close, and the
@@ -807,7 +827,7 @@ def fam_caches(rng, tier, i, reopen=False, faults=False):
         k = rng.randrange(0, 3)
         if by_file_name:
             k = 0
-            s += ["read_all u u", "len"]         # in the session that was opened by file name, before anything else happens to the handle
+            s += ["len", "last_line", "range", "read_all u u"]       # in the session that was opened by file name, before anything else happens to the handle (a panic costs it)
         for k3 in range(k):
             s += ["close", open_line("c", "any", "any", Bs, ext=(i + k3) % 2)]
     if faults:
@@ -834,6 +854,9 @@ def fam_caches(rng, tier, i, reopen=False, faults=False):
     s.append("read_n %d u u" % rng.choice([1, 2, 3, n]))
     s += ["close", "dump"]
     fam = "caches_faults" if faults else ("caches_reopen" if reopen else "caches")
+    if i % 3 == 1:
+        # a resampler whose encoder hands back more bytes than the payload size (the library takes the prefix): `caches=..!`
+        s = [re.sub(r"( caches=[0-9,]+) cb=", r"\1! cb=", l) for l in s]
     return {"family": fam, "lines": s, "tags": {"p%d" % p, "caches"} | ({"bigts"} if big else set())}
 
 _CACHE_HDR_PARTS = None
@@ -855,6 +878,25 @@ def fam_caches_rebuild(rng, tier, i):
     p = rng.choice([0, 1, 2, 3, 4, 6])
     L = p + 2
     B = rng.choice([2, 3, 4, 5])
+    if i % 5 == 4:
+        # the series is gone (data and index file removed), the files of its levels stayed behind; it is created again with the
+        # same levels: refused, or - should a create ever adopt what it finds - every level must hold the new series only
+        Bs = (B,) if rng.random() < 0.5 else (B, 2 * B)
+        l1 = mk_lines(rng, p, 3 * B + 1, shape="dense", base=rng.choice([500, 2**33]), no_marker=True)
+        l2 = mk_lines(rng, p, 2 * B, shape="dense", base=rng.choice([7, 2**34]), no_marker=True)
+        s = [new_line("c", p, b"", Bs)] + push_lines(l1) + ["close", "fs_rm data:c", "fs_rm index:c", new_line("c", p, b"", Bs)] + push_lines(l2) + \
+            ["read_n 2 u u", "close", "dump"]
+        return {"family": "caches_rebuild", "lines": s, "tags": {"p%d" % p, "caches", "stale_levels"}}
+    if i % 5 == 2:
+        # a level with bucket size 1 that is one session behind its source; the first line it lacks lies exactly 65534 behind a
+        # full timestamp and another section follows: the repair on open has to find that line
+        t0 = rng.choice([1000, 2**33 + 5, 2**50])
+        pre = [(t0 + d, payload(rng, p)) for d in sorted({0, rng.randrange(1, 60000), 65533})]
+        post = [(t0 + 65534, payload(rng, p)), (t0 + 65534 + rng.choice([1, 70000, 200000]), payload(rng, p)), (t0 + 400000, payload(rng, p))]
+        Bs = (1,) if rng.random() < 0.6 else (1, 3)
+        s = [new_line("c", p, b"", Bs)] + push_lines(pre) + ["close", open_line("c", "any", "any", ())] + push_lines(post) + ["close",
+             open_line("c", "any", "any", Bs), "read_all u u", "read_n 6 u u", "read_n 2 i%d u" % (t0 + 65534), "close", "dump"]
+        return {"family": "caches_rebuild", "lines": s, "tags": {"p%d" % p, "caches", "level_behind"}}
     kind = rng.choice(["missing_short", "missing_long", "emptied", "emptied"])
     if kind == "missing_short":
         n = rng.randrange(1, B)
@@ -1190,7 +1232,7 @@ def fam_totality(rng, tier, i):
     return {"family": "totality", "lines": s, "tags": {"p%d" % p}}
 
 FAMILIES = {f.__name__[4:]: f for f in [
-    fam_roundtrip, fam_boundary, fam_boundary2, fam_lastmeta, fam_interleave, fam_boundary_reader, fam_boundary_reader_c, fam_bigsection, fam_sparse_boundary, fam_ranges, fam_refuse, fam_reopen, fam_reopen_marker,
+    fam_roundtrip, fam_boundary, fam_boundary2, fam_lastmeta, fam_lastmeta_intact, fam_interleave, fam_boundary_reader, fam_boundary_reader_c, fam_bigsection, fam_sparse_boundary, fam_ranges, fam_refuse, fam_reopen, fam_reopen_marker,
     fam_bigline, fam_torn, fam_index_states, fam_format, fam_assets, fam_caches, fam_caches_reopen,
     fam_caches_faults, fam_caches_rebuild, fam_cache_sections, fam_resample, fam_contract, fam_corrupt, fam_totality]}
 
